@@ -25,7 +25,9 @@ Cert(n) == CASE n = "A" -> [sid |-> "A", key |-> "k1"] [] n = "B" -> [sid |-> "B
              [] n = "At" -> [sid |-> "A", key |-> "k2"]
              [] n = "Ae" -> [sid |-> "A", key |-> "ked"]     \* A's issuer+serial on a certificate with an Ed25519 key
              [] n = "Ac" -> [sid |-> "A", key |-> "kec"]     \* ... with an ECDSA P-256 key
-CertNames == {"A", "B", "At", "Ae", "Ac"}
+             [] n = "Ca" -> [sid |-> "Ca", key |-> "k3"]     \* a certificate issued by a CA: its issuer name differs from its subject name;
+                                                              \* a signer id "CaSub" carries that certificate's SUBJECT name with its serial number
+CertNames == {"A", "B", "At", "Ae", "Ac", "Ca"}
 
 (* the signature covers the attribute bytes exactly as they appear *)
 NAttrs(s) == IF s.attrs # "present" THEN 0 ELSE 1 + (IF s.ctattr = "absent" THEN 0 ELSE 1) + (IF s.md = "absent" THEN 0 ELSE 1)   \* signingTime is always there
